@@ -70,7 +70,7 @@ def mgs_request(m, k):
         t += [0]
     else:
         t += [1, len(m.partition_constraints), [qs(c) for c in m.partition_constraints]]
-    return "mgs " + common.toks(t)
+    return "mgsenc " + common.toks(t)
 
 
 def mgspre_request(remove, numbers, total):
